@@ -57,10 +57,10 @@ func walkCmds(cfg CfgRec) []CmdRec {
 			add(CmdRec{C: verb, A: a})
 		}
 	}
-	for _, v := range []string{"ok", "rej", "nofrom", "badpath", "unkparam", "badsize", "sizeok", "sizeover", "binarymime", "ret", "panic"} {
+	for _, v := range []string{"ok", "rej", "rej5", "nofrom", "badpath", "unkparam", "badsize", "sizeok", "sizeover", "binarymime", "ret", "panic"} {
 		add(CmdRec{C: "MAIL", A: v})
 	}
-	for _, v := range []string{"ok", "rej", "noto", "badpath", "unkparam", "notify"} {
+	for _, v := range []string{"ok", "rej", "rej5", "noto", "badpath", "unkparam", "notify"} {
 		add(CmdRec{C: "RCPT", A: v})
 	}
 	add(CmdRec{C: "DATA", A: "arg"})
